@@ -85,17 +85,25 @@ impl TraitCodegen<'_> {
         let params = trait_generics.trait_params();
         let where_clause = trait_generics.trait_where_clause();
 
+        // An entraited trait keeps all of its own attributes (docs, lints, cfg, ..), as written:
+        let literal_attrs = match fn_input_mode {
+            FnInputMode::RawTrait(literal_attrs) => Some(literal_attrs),
+            _ => None,
+        };
+
         let trait_sub_attributes = self.sub_attributes.iter().filter(|attr| {
-            matches!(
-                attr,
-                SubAttribute::AsyncTrait(_) | SubAttribute::Automock(_)
-            )
+            literal_attrs.is_none()
+                && matches!(
+                    attr,
+                    SubAttribute::AsyncTrait(_) | SubAttribute::Automock(_)
+                )
         });
 
         Ok(quote_spanned! { span=>
             #opt_unimock_attr
             #opt_entrait_for_trait_attr
             #opt_mockall_automock_attr
+            #literal_attrs
             #(#trait_sub_attributes)*
             #trait_visibility trait #trait_ident #params #supertraits #where_clause {
                 #(#fn_defs)*
